@@ -177,29 +177,32 @@ func init() {
 			return
 		}
 		ins := concInputs(it, im, spec.N)
-		alone := make([]string, len(ins))
-		for i, in := range ins {
-			alone[i] = runOne(im, in, nil)
-		}
+		// the concurrent phase comes FIRST: lazily initialised shared state (a cache filled on first use) is only
+		// written while it is still cold, and a sequential warm-up would hide those writes from the detector
+		got := make([][]string, 16)
 		var wg sync.WaitGroup
-		var mu sync.Mutex
 		for g := 0; g < 16; g++ {
 			wg.Add(1)
+			got[g] = make([]string, len(ins))
 			go func(g int) {
 				defer wg.Done()
 				for k := range ins {
 					i := (k + g*7) % len(ins)
-					got := runOne(im, ins[i], nil)
-					mu.Lock()
-					st.add("free_running_parses", 1)
-					if got != alone[i] {
-						st.violation("C17", fmt.Sprintf("%s race %s", it.ID, ins[i]), fmt.Sprintf("free-running goroutine %d parsing %s obtains %s; alone %s", g, ins[i], got, alone[i]),
-							map[string]any{"input": ins[i].String(), "got": got, "alone": alone[i]})
-					}
-					mu.Unlock()
+					got[g][i] = runOne(im, ins[i], nil)
 				}
 			}(g)
 		}
 		wg.Wait()
+		for i, in := range ins {
+			alone := runOne(im, in, nil)
+			for g := 0; g < 16; g++ {
+				st.add("free_running_parses", 1)
+				if got[g][i] != alone {
+					st.violation("C17", fmt.Sprintf("%s race %s", it.ID, in), fmt.Sprintf("free-running goroutine %d parsing %s obtains %s; alone %s", g, in, got[g][i], alone),
+						map[string]any{"input": in.String(), "got": got[g][i], "alone": alone})
+					break
+				}
+			}
+		}
 	}
 }
